@@ -1,5 +1,5 @@
-CONSTANTS Clients = {1, 2} Services = {"a", "b", "x"} Supported = {"a", "b"} Base = 2 S = 1 MaxFrames = 3 Threaded = FALSE LevelsUsed = {0, 1, 3} Discards = {FALSE}
+CONSTANTS Clients = {1, 2} Services = {"a", "b", "x"} Supported = {"a", "b"} Base = 2 S = 1 MaxFrames = 3 Threaded = FALSE LevelsUsed = {0, 1, 3} Discards = {FALSE} Faulty = {}
 SPECIFICATION Spec
-INVARIANTS TypeOK RefCount CursorOK QueueOrder Buffers Delivery InOrder DeviceOpen
+INVARIANTS TypeOK RefCount CursorOK QueueOrder Buffers Delivery InOrder DeviceOpen CanCapture
 PROPERTIES Filtered LossOnlyWhenFull OnlyBlockedLose
 CHECK_DEADLOCK FALSE
